@@ -120,7 +120,7 @@ fn main() {
 
         let only: Option<String> = std::env::var("C15_STAGE").ok();
         let dir = std::path::PathBuf::from(format!("/tmp/vs-c15-{}", std::process::id()));
-        let limit = if thorough { Duration::from_secs(19 * 60) } else { Duration::from_secs(40) };
+        let limit = if thorough { Duration::from_secs(18 * 60) } else { Duration::from_secs(40) };
         let results = pool::run_stages(
             plan,
             vmc::explore::default_threads(),
